@@ -72,3 +72,45 @@ def attribute_row(obs, row):
                 other.reverseStrand == row.reverseStrand:
             keys += [k for k, _, _ in hooks.classify_resolver_conflicts(rec, rev=row.reverseStrand)]
     return keys
+
+
+def each_record(obs):
+    for suf, recs in obs.records.items():
+        rows = obs.run.rows.get(suf)
+        for idx, rec in enumerate(recs):
+            yield suf, idx, rec, (rows[idx] if rows is not None and idx < len(rows) else None)
+
+
+def valid_record(obs, rec):
+    """C01 holds for this record (field / encoding / score semantics of an invalid matching are undefined)."""
+    if rec['r'] not in obs.refs or rec['q'] not in obs.qs:
+        return False
+    return not oracles.matching(rec['aln'], rec['ori'], len(obs.refs[rec['r']][1]), len(obs.qs[rec['q']][1]))
+
+
+def note_run(case, obs, sh):
+    sh.evaluations += 1
+    sh.count('runs')
+    sh.count('mode:' + case['mode'])
+    for c in case.get('qclass', {}).values():
+        sh.count('class:' + c)
+    if obs.run.error:
+        sh.count('aborted-runs')
+        sh.count('abort:%s@%s' % (obs.run.error['type'], obs.run.error['frame']))
+        return False
+    return True
+
+
+def campaign(tag, spec, sh, judge, classes, pool_first=0, **gen_kw):
+    """Generic e2e shard: cases 0..n-1 of (seed, shard), each judged by judge(case, workdir, sh)."""
+    from vf import gen
+    from vf.core import rng_for
+    for i in range(spec['cases']):
+        rng = rng_for(tag, spec['seed'], spec['shard'], i)
+        case = gen.pipeline_case(rng, classes, **gen_kw)
+        case['kind'] = 'e2e'
+        case['gen'] = [spec['seed'], spec['shard'], i]
+        judge(case, spec['workdir'], sh)
+    if hooks.MONITOR_ERRORS:
+        sh.inconclusive.append('monitor errors: %s' % hooks.MONITOR_ERRORS[:3])
+    return sh
